@@ -270,9 +270,9 @@ def composite_tie(ctx):
         ctx.case(['composite', inp['paths']], kind='tie:composite:%d-paths' % len(inp['paths']))
         if 'driver_error' in out: ctx.divergence('driver error', inp, model=out, impl=None); continue
         for k, (r, m) in enumerate(zip(real, out['params'])):
-            own = SQLBuilder.eval_json_path([inp['values']['v%d' % v] if t == 'p' else v for t, v in inp['paths'][k]])
+            own = j1_builder().eval_json_path([inp['values']['v%d' % v] if t == 'p' else v for t, v in inp['paths'][k]])     # the function the composite parameter evaluates
             model_items = [[t, v] for t, v in m['items']]
-            model_text = SQLBuilder.eval_json_path([inp['values']['v%d' % v] if t == 'p' else v for t, v in model_items])
+            model_text = j1_builder().eval_json_path([inp['values']['v%d' % v] if t == 'p' else v for t, v in model_items])
             if r['key'] != m['key']:
                 ctx.divergence('composite parameter key: model paramKey and the real paramkey disagree', [inp, k], model=m['key'], impl=r['key'])
             elif r['text'] != model_text:
